@@ -43,7 +43,10 @@ def parseOp (s : String) : Option XOp :=
       pure (.bop (.cnew (← c.toNat?) (← bs.toInt?) (ro == "1") (ow == "1") (← bytesOfHex? cm)))
   | ["begin", c, m] => do pure (.bop (.begin (← c.toNat?) (m == "w")))
   | ["end", c] => do pure (.bop (.end_ (← c.toNat?)))
-  | ["cput", c, k, v] => do pure (.bop (.put (← c.toNat?) (← bytesOfHex? k) (← bytesOfHex? v)))
+  | ["cput", c, k, v] => do
+      let kb ← bytesOfHex? k
+      pure (.bop (.put (← c.toNat?) kb (← bytesOfHex? v) kb.length))
+  | ["cput", c, k, v, n] => do pure (.bop (.put (← c.toNat?) (← bytesOfHex? k) (← bytesOfHex? v) (← n.toNat?)))
   | ["cget", c, k] => do pure (.bop (.get (← c.toNat?) (← bytesOfHex? k)))
   | ["ckeys", c] => do pure (.bop (.keys (← c.toNat?)))
   | ["cflush", c] => do pure (.bop (.flush (← c.toNat?)))
